@@ -57,6 +57,12 @@ struct State {
 }
 
 static STATE: Mutex<Option<State>> = Mutex::new(None);
+static STEPS: std::sync::atomic::AtomicUsize = std::sync::atomic::AtomicUsize::new(0);
+
+/// Number of grants made so far in the current run (a logical clock for managed threads).
+pub fn steps() -> usize {
+    STEPS.load(std::sync::atomic::Ordering::SeqCst)
+}
 static CV: Condvar = Condvar::new();
 
 thread_local! {
@@ -160,6 +166,7 @@ pub fn run(
     hang_after: Duration,
 ) -> RunResult {
     let n = bodies.len();
+    STEPS.store(0, std::sync::atomic::Ordering::SeqCst);
     {
         let mut g = STATE.lock().unwrap();
         assert!(g.is_none(), "scheduler already active");
@@ -270,6 +277,7 @@ pub fn run(
         let t = enabled[c];
         choices.push(c);
         steps += 1;
+        STEPS.store(steps, std::sync::atomic::Ordering::SeqCst);
         last = match &status[t] {
             Status::Waiting(w) => Some((t, *w)),
             _ => None,
